@@ -62,6 +62,16 @@ Definition wf (i : inv) (names : list path) (s : fs) : Prop :=
                ~ In t names /\
                forall b d p, In b names -> dsel_of i names b = Some d -> dsel_path d = Some p -> t <> p).
 
+(* wf without "destinations of distinct sources are distinct": two sources may share one destination name
+   (--output-dir-flat with equal file names in different directories) *)
+Definition wf_shared_dst (i : inv) (names : list path) (s : fs) : Prop :=
+  NoDup names /\
+  (forall a b d p, In a names -> In b names -> dsel_of i names b = Some d -> dsel_path d = Some p -> a <> p) /\
+  (forall b d p, In b names -> dsel_of i names b = Some d -> dsel_path d = Some p -> is_lnk (s p) = false) /\
+  (forall a t, In a names -> s a = Lnk t ->
+               ~ In t names /\
+               forall b d p, In b names -> dsel_of i names b = Some d -> dsel_path d = Some p -> t <> p).
+
 Definition is_unlink_src (o : op) : bool := match o with OUnlinkSrc _ => true | _ => false end.
 
 (* exit status of a completed run: the argument of the last OExit *)
